@@ -13,6 +13,7 @@ EXTENDS Integers, Sequences, FiniteSets, TLC, Json
 
 CONSTANTS MaxReq,     \* largest request size
           MaxOps,     \* calls per behaviour
+          T0Set,      \* start times given at construction (ticks)
           EmitOn
 
 VARIABLES cfg,        \* [kind, pols, nant, delays (seq), omitted]
@@ -30,9 +31,10 @@ vars == <<cfg, own, aclk, bg, arr, cache, out, base, cnt, hist>>
 View == <<cfg, own, aclk, bg, arr, cache, out, base, cnt>>
 
 DelayVecs == {<<0>>, <<2>>, <<0, 0>>, <<0, 2>>, <<1, 0>>, <<2, 1>>, <<0, 2, 1>>, <<1, 1, 2>>}
-Configs == [kind : {"antenna"}, pols : {1, 2}, nant : {1}, delays : {<<0>>}, omitted : {FALSE}]
-           \cup {[kind |-> "array", pols |-> p, nant |-> Len(d), delays |-> d, omitted |-> FALSE] : p \in {1, 2}, d \in DelayVecs}
-           \cup {[kind |-> "array", pols |-> p, nant |-> n, delays |-> [i \in 1..n |-> 0], omitted |-> TRUE] : p \in {1, 2}, n \in {1, 2}}
+T0s == T0Set           \* the start time given at construction (ticks): every clock of the object graph starts there
+Configs == [kind : {"antenna"}, pols : {1, 2}, nant : {1}, delays : {<<0>>}, omitted : {FALSE}, t0 : T0s]
+           \cup {[kind |-> "array", pols |-> p, nant |-> Len(d), delays |-> d, omitted |-> FALSE, t0 |-> t] : p \in {1, 2}, d \in DelayVecs, t \in T0s}
+           \cup {[kind |-> "array", pols |-> p, nant |-> n, delays |-> [i \in 1..n |-> 0], omitted |-> TRUE, t0 |-> t] : p \in {1, 2}, n \in {1, 2}, t \in T0s}
 
 RECURSIVE MaxSeq(_)
 MaxSeq(s) == IF Len(s) = 1 THEN s[1] ELSE LET m == MaxSeq(Tail(s)) IN IF s[1] > m THEN s[1] ELSE m
@@ -41,12 +43,12 @@ Ants == 1..cfg.nant
 Pols == 1..cfg.pols
 
 Init == /\ cfg \in Configs
-        /\ own = [a \in 1..3 |-> [p \in 1..2 |-> [clock |-> 0, start |-> TRUE, rng |-> 0]]]
-        /\ aclk = [a \in 1..3 |-> [clock |-> 0, start |-> TRUE]]
-        /\ bg = [p \in 1..2 |-> [clock |-> 0, start |-> TRUE, rng |-> 0]]
-        /\ arr = [clock |-> 0, start |-> TRUE]
+        /\ own = [a \in 1..3 |-> [p \in 1..2 |-> [clock |-> cfg.t0, start |-> TRUE, rng |-> 0]]]
+        /\ aclk = [a \in 1..3 |-> [clock |-> cfg.t0, start |-> TRUE]]
+        /\ bg = [p \in 1..2 |-> [clock |-> cfg.t0, start |-> TRUE, rng |-> 0]]
+        /\ arr = [clock |-> cfg.t0, start |-> TRUE]
         /\ cache = [a \in 1..3 |-> [p \in 1..2 |-> [set |-> FALSE, v |-> <<>>]]]
-        /\ out = <<>> /\ base = 0 /\ cnt = 0 /\ hist = <<>>
+        /\ out = <<>> /\ base = cfg.t0 /\ cnt = 0 /\ hist = <<>>
 
 Active == Len(hist) < MaxOps
 Log(a, o) == Active /\ hist' = Append(hist, [act |-> a, out |-> o,
